@@ -240,6 +240,9 @@ func runDecode(out *hx.Out, prop string, seed uint64, n int) {
 	// 1. hand-written decoders against their model
 	handWrittenCases(s, hx.NewRand(seed, "handwritten", 0), n)
 
+	// 1b. the real metrics reporter behind ValidatePubsubMessage: label values from the message
+	metricsCase(s, 100000)
+
 	// 2. fuzz-style runs: one case per target, n byte strings each
 	for ti, t := range targets {
 		out.Case("prop=%s fuzz target=%s", prop, t.name)
